@@ -1,9 +1,9 @@
 SPECIFICATION AllSpec
 CONSTANTS
-  MAXU = 7
+  MAXU = 5
   W = 3
-  Denoms = {1, 2, 7}
-  Mins = {0, 1, 2, 3, 4, 5, 6, 7}
-  Sinces = {0, 2, 3, 4, 7}
+  Denoms = {1, 2, 5}
+  Mins = {0, 1, 2, 3, 4, 5}
+  Sinces = {0, 2, 3, 4, 5}
 INVARIANTS FloorAtMin Direction Proportional Saturates MonotoneInUsage WindowInWord WindowShift TotalIsCappedSum TotalMonotone
 CHECK_DEADLOCK FALSE
